@@ -91,6 +91,26 @@ impl RegisterAllocator {
         Ok(start)
     }
 
+    /// Give back a range obtained from `reserve_range` once the instruction that reads
+    /// it has been emitted; the window shrinks again while its top register is free
+    pub fn release_range(&mut self, start: Register, count: u8) {
+        for r in start..start.saturating_add(count) {
+            if !self.free_list.contains(&r) {
+                self.free_list.push(r);
+            }
+        }
+        while self.next > 0 {
+            let top = self.next - 1;
+            match self.free_list.iter().position(|&r| r == top) {
+                Some(pos) => {
+                    self.free_list.swap_remove(pos);
+                    self.next = top;
+                }
+                None => break,
+            }
+        }
+    }
+
     /// Save current allocation state (for nested expressions)
     pub fn save(&mut self) {
         self.saved.push(self.next);
@@ -558,6 +578,11 @@ impl BytecodeBuilder {
     /// Reserve a range of consecutive registers
     pub fn reserve_registers(&mut self, count: usize) -> Result<Register, JsError> {
         self.registers.reserve_range(count)
+    }
+
+    /// Release a range of consecutive registers reserved with `reserve_registers`
+    pub fn release_registers(&mut self, start: Register, count: u8) {
+        self.registers.release_range(start, count);
     }
 }
 
